@@ -282,7 +282,17 @@ impl fmt::Display for CompoundCommand {
         use CompoundCommand::*;
         match self {
             Grouping(list) => write!(f, "{{ {list:#} }}"),
-            Subshell { body, .. } => write!(f, "({body})"),
+            Subshell { body, .. } => {
+                // Keep the parentheses of the subshell apart from a parenthesis
+                // at either end of the body. Otherwise, the result would start
+                // with `((`, which may be taken for an arithmetic command, or
+                // end with `))`, which may be taken for the end of an
+                // arithmetic expansion started inside the body.
+                let body = body.to_string();
+                let open = if body.starts_with('(') { "( " } else { "(" };
+                let close = if body.ends_with(')') { " )" } else { ")" };
+                write!(f, "{open}{body}{close}")
+            }
             For { name, values, body } => {
                 write!(f, "for {name}")?;
                 if let Some(values) = values {
@@ -976,6 +986,20 @@ mod tests {
             body: Rc::new(body),
         };
         assert_eq!(fd.to_string(), "foo() (bar)");
+    }
+
+    #[test]
+    fn subshell_display_with_parentheses_at_ends_of_body() {
+        let command: CompoundCommand = "( (foo) )".parse().unwrap();
+        assert_eq!(command.to_string(), "( (foo) )");
+        let command: CompoundCommand = "( (foo); bar )".parse().unwrap();
+        assert_eq!(command.to_string(), "( (foo); bar)");
+        // Without the space, the result would end with `))` that closes the
+        // `$((`, making it an arithmetic expansion.
+        let command: CompoundCommand = r"( : $(( echo \( ) ) )".parse().unwrap();
+        assert_eq!(command.to_string(), r"(: $(( echo \( ) ) )");
+        let reparsed: CompoundCommand = command.to_string().parse().unwrap();
+        assert_eq!(reparsed.to_string(), command.to_string());
     }
 
     #[test]
